@@ -5,8 +5,8 @@ import json, os, random
 from vlib import *
 import props_dir
 
-def run_conc_mc(chk, cfg, expect_violation=False, workers=8):
-    res = run_tlc_mc("MCConcurrent", cfg, chk.wd, workers=workers, timeout=1500, heap="8g")
+def run_conc_mc(chk, cfg, expect_violation=False, workers=8, module="MCConcurrent"):
+    res = run_tlc_mc(module, cfg, chk.wd, workers=workers, timeout=1500, heap="8g")
     chk.add_mc(res)
     if expect_violation:
         if not res["violation"]:
@@ -162,6 +162,9 @@ def c12():
     run_conc_mc(chk, "MCConcurrent_pub2_pinned.cfg", expect_violation=True)
     run_conc_mc(chk, "MCConcurrent_pub2_norecheck.cfg", expect_violation=True)
     run_conc_mc(chk, "MCConcurrent_pub2_noheld.cfg", expect_violation=True)
+    # liveness under weak fairness: every call returns and the flag is always eventually released (2 publishers, a reader, cache, 1 fault)
+    run_conc_mc(chk, "MCConcurrentLive.cfg", module="MCConcurrentLive", workers=4)
+    run_conc_mc(chk, "MCConcurrentLive_pinned.cfg", module="MCConcurrentLive", workers=4, expect_violation=True)
     scheds = export_schedules(chk, "MCConcurrent_pub2x.cfg")
     rnd = random.Random(chk.seed)
     bs = []
